@@ -21,6 +21,7 @@
 #include "cppType.h"
 #include "cppGlobals.h"
 #include "panda_getopt_long.h"
+#include "verif_trace.h"
 #include "preprocess_argv.h"
 #include <stdlib.h>
 
@@ -322,6 +323,7 @@ main(int argc, char **argv) {
       break;
 
     default:
+      VERIF_EVENT("{\"e\":\"Exit\",\"tool\":\"parse_file\",\"status\":1}");
       exit(1);
     }
     flag = getopt(argc, argv, optstr);
@@ -344,21 +346,27 @@ main(int argc, char **argv) {
          << "  -T             (unit test mode)\n"
          << "  -p             (prompt for expression instead of dumping output)\n";
 
+    VERIF_EVENT("{\"e\":\"Exit\",\"tool\":\"parse_file\",\"status\":1}");
     exit(1);
   }
 
   for (int i = 1; i < argc; i++) {
     if (preprocess) {
       if (!parser.preprocess_file(argv[i])) {
+        VERIF_EVENT("{\"e\":\"ParseFile\",\"tool\":\"parse_file\",\"file\":" << VERIF_Q(argv[i]) << ",\"ok\":0,\"errors\":" << parser.get_error_count() << "}");
         cerr << "Error in preprocessing.\n";
+        VERIF_EVENT("{\"e\":\"Exit\",\"tool\":\"parse_file\",\"status\":1}");
         exit(1);
       }
     } else {
       if (!parser.parse_file(argv[i])) {
+        VERIF_EVENT("{\"e\":\"ParseFile\",\"tool\":\"parse_file\",\"file\":" << VERIF_Q(argv[i]) << ",\"ok\":0,\"errors\":" << parser.get_error_count() << "}");
         cerr << "Error in parsing.\n";
+        VERIF_EVENT("{\"e\":\"Exit\",\"tool\":\"parse_file\",\"status\":1}");
         exit(1);
       }
     }
+    VERIF_EVENT("{\"e\":\"ParseFile\",\"tool\":\"parse_file\",\"file\":" << VERIF_Q(argv[i]) << ",\"ok\":1,\"errors\":" << parser.get_error_count() << "}");
   }
 
   cerr << "Finished parsing.\n";
@@ -399,6 +407,7 @@ main(int argc, char **argv) {
         all_pass = false;
       }
     }
+    VERIF_EVENT("{\"e\":\"Exit\",\"tool\":\"parse_file\",\"status\":" << (all_pass ? 0 : 1) << "}");
     return all_pass ? 0 : 1;
   } else {
     parser.write(cout, 0, &parser);
@@ -454,5 +463,6 @@ main(int argc, char **argv) {
   }
   */
 
+  VERIF_EVENT("{\"e\":\"Exit\",\"tool\":\"parse_file\",\"status\":0}");
   return (0);
 }
